@@ -4,7 +4,7 @@
    hand models that are run against the real code on every run. *)
 From Coq Require Import ZArith List Bool.
 From MomoCommon Require Import GenPrelude.
-From C09 Require Gen_UIntMath Gen_MemPoolConst Gen_MemPool Gen_MemPoolData PoolLayout PoolLinks PoolArith PoolLinksProofs PoolModel PoolConc PoolConcProofs PoolInv PoolAddr PoolCompl PoolOne PoolU32Prims Gen_MemPoolUInt32 PoolU32 PoolU32List PoolBlkPrims Gen_MemPoolBlk Gen_MemPoolMerge PoolBlk PoolMergeGen PoolBlkRefine Gen_MemPoolDel PoolDelGen Gen_MemPoolNewBuf PoolNewBufGen.
+From C09 Require Gen_UIntMath Gen_MemPoolConst Gen_MemPool Gen_MemPoolData PoolLayout PoolLinks PoolArith PoolLinksProofs PoolModel PoolConc PoolConcProofs PoolInv PoolAddr PoolCompl PoolOne PoolU32Prims Gen_MemPoolUInt32 PoolU32 PoolU32List PoolBlkPrims Gen_MemPoolBlk Gen_MemPoolMerge PoolBlk PoolMergeGen PoolBlkRefine PoolBlkSim Gen_MemPoolDel PoolDelGen Gen_MemPoolNewBuf PoolNewBufGen.
 Import ListNotations.
 Local Open Scope Z_scope.
 
@@ -662,6 +662,39 @@ Theorem C09_newblock_refines_model : forall C B A, 2 <= C -> forall w p hd bf bc
     (forall c, c <> fresh \/ requested = true -> bf' c = PoolConc.fb w' c /\ bcnt' c = PoolConc.fc w' c).
 Proof. exact PoolBlkRefine.newblock_refines. Qed.
 Print Assumptions C09_newblock_refines_model.
+
+(* the pvNewBlock refinement as an INDUCTIVE SIMULATION (PoolBlkSim.v): buffer id k of the model lives at address adr k (any injective
+   map, adr 0 = 0); Sim = head, next pointers along the model's list, BufferBytes, the next-free index stored in EVERY block of every
+   existing buffer = the model's, and the cells of every future buffer as pvNewBuffer() initialises them.  One generated step = one
+   model step and Sim holds again; hence for every number n of allocations (pvNewBlock calls) on a pool with blockCount >= 2 the
+   iterated GENERATED function hands out exactly the blocks the hand model hands out, in the same order *)
+Theorem C09_newblock_simulation_step : forall C B A adr, 2 <= C -> adr 0 = 0 -> (forall a b, adr a = adr b -> a = b) ->
+  forall w p hd bf bcnt nx pv nfi, PoolBlkSim.Sim C B A adr w p hd bf bcnt nx nfi ->
+  let '(w', (b, i)) := PoolConc.pvNewBlock C w p in
+  exists hd2 bf' bcnt' nx' pv',
+    Gen_MemPoolBlk.pvNewBlock (adr (PoolConc.fresh w)) B A hd bf bcnt nx pv nfi false =
+      Ok (Some (Gen_MemPool.pvGetBlock B A (adr b) i), hd2, bf', bcnt', nx', pv') /\
+    PoolConc.fresh w' = (if PoolBlk.requests hd bcnt nx then PoolConc.fresh w + 1 else PoolConc.fresh w) /\
+    PoolBlkSim.Sim C B A adr w' p hd2 bf' bcnt' nx' nfi.
+Proof. exact PoolBlkSim.sim_step. Qed.
+Print Assumptions C09_newblock_simulation_step.
+
+Theorem C09_newblock_simulation_all_allocations : forall C B A adr, 2 <= C -> adr 0 = 0 -> (forall a b, adr a = adr b -> a = b) ->
+  forall n w p hd bf bcnt nx pv nfi, PoolBlkSim.Sim C B A adr w p hd bf bcnt nx nfi ->
+  exists hd' bf' bcnt' nx' pv',
+    PoolBlkSim.grun B A adr n (PoolConc.fresh w) hd bf bcnt nx pv nfi =
+      Some (map (fun bk => Gen_MemPool.pvGetBlock B A (adr (fst bk)) (snd bk)) (fst (PoolBlkSim.mrun C n w p)), (hd', bf', bcnt', nx', pv')) /\
+    PoolBlkSim.Sim C B A adr (snd (PoolBlkSim.mrun C n w p)) p hd' bf' bcnt' nx' nfi.
+Proof. exact PoolBlkSim.sim_run. Qed.
+Print Assumptions C09_newblock_simulation_all_allocations.
+
+(* Sim holds for the empty pool when the future buffers' cells are pre-initialised *)
+Theorem C09_newblock_simulation_initial : forall C B A adr, adr 0 = 0 -> forall p bf bcnt nx nfi,
+  (forall k, 1 <= k -> bf (adr k) = 0 /\ bcnt (adr k) = C /\ nx (adr k) = 0 /\
+                       forall j, nfi (Gen_MemPool.pvGetBlock B A (adr k) j) = PoolBlkSim.chainv C j) ->
+  PoolBlkSim.Sim C B A adr PoolConc.empty_world p 0 bf bcnt nx nfi.
+Proof. exact PoolBlkSim.sim_init. Qed.
+Print Assumptions C09_newblock_simulation_initial.
 
 (* the hypotheses Rel / PreInit of the refinement theorem are satisfiable (initial world, cells of buffer 1 pre-initialised) *)
 Theorem C09_newblock_refinement_hypotheses_satisfiable : forall C B A,
